@@ -500,3 +500,7 @@ def run(R) -> None:
     R.rule('C10.R1', lambda: r1_inclusive_stop(R))
     R.rule('C10.R2', lambda: r2_get_set_symmetry(R))
     R.rule('C10.R3', lambda: r3_keyerror_discipline(R))
+    # a class that wraps item access (the alias layer) hands the span index on untouched: only the name part of a
+    # (name, index) key is its business (C18.R1 owns the reader)
+    from rules import c18
+    R.rule('C10.R4', lambda: c18.r1_dunders(R))
